@@ -13,19 +13,19 @@ CLAIMED = {
     technique="deterministic simulation with fault injection: seeded histories of the real `annet diff` / `annet deploy` for a whole-file device (generator sets, listing orders, reload modes, out-of-band file edits, failed file fetches); uploads observed at the DeployDriver seam and applied to a file-store device model",
     level_text="Seeded exploration at the driver seam: seeded Entire generators (colliding paths, distinct priorities, outputs, reload strings, is_safe) in drawn listing orders against a PcDevice file store; what DeployDriver.bulk_deploy receives from the real api.adeploy (files, bytes, reload commands) and what api.diff reports are compared with a reference (argmax-priority content, upload iff content differs or forced, reload iff enabled); the device applies the upload and the next run must upload nothing; a failed file fetch must yield an error, not an upload.",
     design_ref="DESIGN.md 5 (C19)",
-    level_note="Trusted: the reference model of priority selection / upload decision / reload attachment, PcDevice. Two open known findings (newline-only difference, absent vs generated-empty) are listed in known_findings.json and reported as KNOWN-FINDING; any other disagreement fails the check."),
+    level_note="Trusted: the reference model of priority selection (generators that decline the device do not compete) / safe-mode filter / upload decision / reload attachment incl. the transport's closing commands, PcDevice. Two open known findings (newline-only difference, absent vs generated-empty) are listed in known_findings.json and reported as KNOWN-FINDING; any other disagreement fails the check."),
  "C16": dict(
     engine="files",
     technique="deterministic simulation: seeded world states written to files, the real file-patch/file-diff front ends run through the real Parallel on simulated multiprocessing (schedule, delays, retirement, listing order drawn) and are compared host by host with the device front end",
     level_text="Seeded differential exploration between two real code paths on simulated world states: corpus pairs in both directions, per-vendor cross products and seeded mutations are written by the vendor formatter for 1-8 hosts; api.file_patch and api.file_diff (with _read_old_new_cfgdumps, pool workers, _read_old_new_diff_patch) must produce, for every host, exactly the patch text and the diff text the device front end (_diff_and_patch on the trees parsed from the same files) produces, and every host must be delivered exactly once.",
     design_ref="DESIGN.md 5 (C16)",
-    level_note="Trusted: FakeMP (as for C12), the scratch directory, the canonical rendering of the device-mode diff through gen_pre_as_diff. Explicit hardware, no ACL, implicit defaults off, add_comments off. The schedule matters only for delivery."),
+    level_note="Trusted: FakeMP (as for C12), the scratch directory, the canonical rendering of the device-mode diff through gen_pre_as_diff. Explicit hardware (several concrete models per vendor), no ACL, implicit defaults off, add_comments off; Huawei texts also in device style ('#' separators). Every batch runs in a child forked from the pristine engine process. The schedule matters only for delivery."),
  "C11": dict(
     engine="vlan",
     technique="deterministic simulation with fault injection: seeded VLAN-set histories through the real `annet deploy` on the shipped huawei/cisco/nexus rulebooks against a set-valued device model; invariant after every executed command, deploys cut at drawn commands",
     level_text="Seeded exploration: the device holds each VLAN list as a set and renders it with its own range writer split over 1-4 lines, the generator renders the desired set with an independent splitting; the real api.adeploy produces the commands from the shipped rulebooks and vlandb logic; after EVERY command S_old & S_new must still be present (so every cut point is covered) and after an un-cut deploy the set must equal the desired one; expand/collapse are cross-checked at the seam by the device's independent parser/writer.",
     design_ref="DESIGN.md 5 (C11)",
-    level_note="Trusted: VlanDevice's command semantics (add / remove / none / undo all), its independent range parser and writer. VLAN 1 and Huawei's 'undo port trunk allow-pass vlan 1' default line are outside the universe; vlan-id blocks (vlan N / name) are not generated; 'vlan pool' lists are not among the lists the property names (huawei.rul keys them per line) and are left out."),
+    level_note="Trusted: VlanDevice's command semantics (add / remove / none / undo all), its independent range parser and writer. VLAN 1 and Huawei's 'undo port trunk allow-pass vlan 1' default line are outside the universe; 'vlan N / name' blocks are generated on both families but VLAN names themselves are not judged; 'vlan pool' lists are not among the lists the property names (huawei.rul keys them per line) and are left out."),
  "C09": dict(
     engine="cli",
     technique="deterministic simulation: seeded deploys through the real `annet patch` and `annet deploy` front ends; the command stream is observed at the DeployDriver seam and replayed on a virtual clock against a device conforming to the reference deploy rules",
@@ -49,7 +49,7 @@ CLAIMED = {
     technique="deterministic simulation with fault injection: seeded search over schedules, delays and task faults of the real Parallel loop on a fake multiprocessing/clock",
     level_text="Seeded exploration: every run executes the real annet.parallel code (parent loop, workers, retry, callbacks) on an in-process multiprocessing/time stand-in whose scheduler, delays and faults come from one choice list; the oracle is the exact multiset of delivered outcomes, their payloads and termination. A clean batch is evidence over the sampled schedules, not a proof.",
     design_ref="DESIGN.md 3.2, 3.3, 5 (C12)",
-    level_note="Trusted: the kernel, FakeMP's model of mp.Queue/Process (asynchronous put, per-producer FIFO, exit waits for feeder flush; calibrated against one real-multiprocessing reproduction), the workload generator. Pre-emption only at intercepted operations; pipe capacity unbounded; no worker killed from outside."),
+    level_note="Trusted: the kernel, FakeMP's model of mp.Queue / SimpleQueue / Process / os._exit (asynchronous put with feeder, per-producer FIFO, exit waits for feeder flush, unpicklable items dropped by the feeder, SimpleQueue with a 64 KiB pipe; calibrated against real multiprocessing on the pinned defect and on the seeded C12 changes), the workload generator. One run in twelve drives the production callers api.patch / api.gen over simulated devices. Pre-emption only at intercepted operations; mp.Queue pipe capacity unbounded; no worker killed from outside."),
  "C20": dict(
     engine="history",
     technique="deterministic simulation: seeded job histories inside one long-lived (simulated) worker process, sequential or scheduled by the simulated pool, each result compared with a pristine-fork execution",
